@@ -247,6 +247,19 @@ func (pr *Pair) UpdateLimit(by int, ch *client.Channel, f func(*channel.State), 
 // given balances (indexed by party, not by channel index).  The peer accepts
 // from a goroutine after its proposal handler has returned.
 func (pr *Pair) OpenSub(by int, bals [][2]*big.Int, challenge uint64) error {
+	chs, err := pr.OpenSubExtra(by, bals, challenge)
+	if err != nil {
+		return err
+	}
+	pr.Sub = chs
+	pr.SubBy = by
+	return nil
+}
+
+// OpenSubExtra opens a (further) sub-channel of the ledger channel and returns
+// its two handles (indexed by party) without making it "the" sub-channel of
+// the pair.
+func (pr *Pair) OpenSubExtra(by int, bals [][2]*big.Int, challenge uint64) (chs [2]*client.Channel, _ error) {
 	ctx, cancel := context.WithTimeout(context.Background(), HangLimit)
 	defer cancel()
 	other := by ^ 1
@@ -276,24 +289,23 @@ func (pr *Pair) OpenSub(by int, bals [][2]*big.Int, challenge uint64) error {
 	}
 	prop, err := client.NewSubChannelProposal(parent.ID(), challenge, MakeAlloc(pr.Assets, pb), client.WithRandomNonce())
 	if err != nil {
-		return errors.WithMessage(err, "creating sub-channel proposal")
+		return chs, errors.WithMessage(err, "creating sub-channel proposal")
 	}
 	ch, err := pr.P[by].Client.ProposeChannel(ctx, prop)
 	if err != nil {
 		// the responder may still be waiting for the funding update: let it time out in the background
-		return errors.WithMessage(err, "sub-channel proposer")
+		return chs, errors.WithMessage(err, "sub-channel proposer")
 	}
 	select {
 	case r := <-got:
 		if r.err != nil {
-			return errors.WithMessage(r.err, "sub-channel responder")
+			return chs, errors.WithMessage(r.err, "sub-channel responder")
 		}
-		pr.Sub[by], pr.Sub[other] = ch, r.ch
-		pr.SubBy = by
+		chs[by], chs[other] = ch, r.ch
 	case <-ctx.Done():
-		return errors.New("sub-channel responder did not finish (hang limit)")
+		return chs, errors.New("sub-channel responder did not finish (hang limit)")
 	}
-	return nil
+	return chs, nil
 }
 
 // CloseSub finalises the open sub-channel (final update by its index 0) and
@@ -307,9 +319,18 @@ func (pr *Pair) CloseSub() error {
 
 // FinalizeSub makes the final update of the open sub-channel (proposed by its
 // index 0).
-func (pr *Pair) FinalizeSub() error {
+func (pr *Pair) FinalizeSub() error { return pr.FinalizeSubWith(nil) }
+
+// FinalizeSubWith makes the final update of the open sub-channel; f (may be
+// nil) can move funds in the same update.
+func (pr *Pair) FinalizeSubWith(f func(*channel.State)) error {
 	by := pr.SubBy
-	if err := pr.Update(by, pr.Sub[by], func(s *channel.State) { s.IsFinal = true }, true); err != nil {
+	if err := pr.Update(by, pr.Sub[by], func(s *channel.State) {
+		if f != nil {
+			f(s)
+		}
+		s.IsFinal = true
+	}, true); err != nil {
 		return errors.WithMessage(err, "final sub-channel update")
 	}
 	return nil
